@@ -305,6 +305,7 @@ class Builder:
         self.created = []
         self.dc_map = {}
         self.rejected = None
+        self._memo = {}
 
     def _route(self, choices):
         return self.rng.choice(choices) if self.rng else choices[0]
@@ -319,6 +320,17 @@ class Builder:
         return t
 
     def annotation(self, spec):
+        """memoised per builder: a sub-spec is built once, so that a diagnosis that re-parses a part of a value
+        uses the very type object (same declaration route) that sits inside the enclosing type"""
+        try:
+            hit = self._memo.get(spec)
+        except TypeError:  # unhashable spec
+            return self._annotation(spec)
+        if hit is None:
+            hit = self._memo[spec] = (self._annotation(spec),)
+        return hit[0]
+
+    def _annotation(self, spec):
         import utype
         from utype import Rule, Lax
         from utype.parser.rule import LogicalType
